@@ -788,6 +788,15 @@ func (w *world) idValue(c string) (string, bool) {
 
 func (w *world) concretise(r req) concrete {
 	c := concrete{Method: r.M}
+	if r.Ep == "handoff" && r.Pc == "valid" && w.peer != nil {
+		// "valid" names a node that is connected: after a promotion the other node needs a moment
+		// to come back as this node's replica
+		core.Beat("real:await-peer-connected")
+		for dl := time.Now().Add(10 * time.Second); time.Now().Before(dl) && w.target.Store.SubscriberByNodeID(w.peer.Store.ID()) == nil; {
+			time.Sleep(5 * time.Millisecond)
+		}
+		core.Beat("harness")
+	}
 	q := url.Values{}
 	path := "/" + r.Ep
 	switch r.Ep {
@@ -1274,6 +1283,33 @@ func main() {
 	if len(edges) < 10000 {
 		core.Infra("expected >= 10000 edges from TLC, got %d", len(edges))
 	}
+	// longer sequences (up to 4 effective requests, e.g. halt -> handoff -> /tx with the lock still
+	// granted, halt -> handoff -> promote -> ...) over the well-formed-looking request classes only
+	nShallow := len(edges)
+	resD, err := core.RunTLC(core.TLCOpts{Module: "API", Cfg: "MC_API_deep.cfg", Workers: 4, Timeout: 5 * time.Minute,
+		OnLine: func(tag string, payload json.RawMessage) {
+			if tag != "EDGE" {
+				return
+			}
+			var e edge
+			if err := json.Unmarshal(payload, &e); err != nil {
+				core.Infra("bad EDGE line: %v: %s", err, payload)
+			}
+			if len(e.Path) < 2 { // the shallow ones are covered by the full table above
+				return
+			}
+			mu.Lock()
+			edges = append(edges, e)
+			mu.Unlock()
+		}})
+	if err != nil {
+		core.Infra("tlc: %v", err)
+	}
+	if !resD.OK() {
+		core.Infra("model checking of API.tla (deep) failed (model problem, not a code verdict): %s\n%s", resD.Describe(), resD.ErrorText+resD.OutputTail)
+	}
+	rep.AddTLC("MC_API_deep", resD)
+	rep.Extra["edges_deep_sequences"] = len(edges) - nShallow
 	if !args.Quick() {
 		// relevance: with a guard of the table removed (= what the real handlers do, see the known findings)
 		// TLC must report the property on the model; evidence, not a verdict
